@@ -373,10 +373,17 @@ def _matrix(rep, tier, b, cov):
     t0 = time.time()
     statuses = {}
     bad = []
+    skipped = []
     infra = 0
     lock = threading.Lock()
 
     def one(r):
+        # a broker that has stopped answering makes every further request wait for its deadline: forty failures
+        # are enough to judge, the rest of the matrix is skipped (and reported as not completed)
+        with lock:
+            if len(bad) >= 40:
+                skipped.append(r)
+                return
         o = exchange(b.port, r)
         with lock:
             nonlocal infra
@@ -388,7 +395,10 @@ def _matrix(rep, tier, b, cov):
                 bad.append((r, o[0]))
     with ThreadPoolExecutor(max_workers=48) as ex:
         list(ex.map(one, reqs))
-    cov["single_requests"] = len(reqs)
+    cov["single_requests"] = len(reqs) - len(skipped)
+    if skipped:
+        cov["requests_skipped_after_40_failures"] = len(skipped)
+        rep.coverage["exhaustive"] = False
     cov["status_histogram"] = {str(k): v for k, v in sorted(statuses.items())}
     # a failure is believed if the same request, alone, fails three more times
     confirmed = 0
@@ -398,8 +408,8 @@ def _matrix(rep, tier, b, cov):
             confirmed += 1
             rep.finding("t2:" + o[1], "%s: %s (and in 3 more attempts: %s)" % (r.desc(), o[2], ", ".join(x[1] for x in again)),
                         {"kind": "raw HTTP request to the broker binary", "request": r.desc(), "wire_head": r.wire()[:300].decode("latin1")})
-        if not b.alive():
-            break
+        if not b.alive() or confirmed >= 3:
+            break  # three confirmed failures are enough; each confirmation costs up to three deadlines
     cov["unconfirmed_transport_failures"] = len(bad) - confirmed
     if not b.alive():
         rep.finding("t2:broker-process-died", "the broker process exited with status %s during the request matrix; stderr tail: %s" % (
@@ -409,6 +419,8 @@ def _matrix(rep, tier, b, cov):
     red = [("POST", "/client", "valid"), ("POST", "/client", "legacy"), ("POST", "/client", "200000B"), ("POST", "/client", "garbage"), ("POST", "/proxy", "relay-pattern-mismatch"),
            ("POST", "/answer", "valid"), ("GET", "/debug", "empty"), ("GET", "/amp/client/", "valid"), ("POST", "/", "100001B"), ("HEAD", "/metrics", "empty"), ("GET", "/prometheus", "empty")]
     pairs = [(a, c) for a in red for c in red]
+    if skipped:
+        pairs = pairs[:8]  # the broker is already known not to answer: a token number of pairs
     pair_bad = []
     closed_after_first = 0
 
